@@ -355,7 +355,13 @@ def run_kv_walk(ctx, profile, runs, steps, page_sizes="512", caches="1048576", n
            "--page-size", page_sizes, "--cache", caches, "--nkeys", str(nkeys), "--out", trace]
     if extra:
         cmd += extra
-    p = sh(cmd, timeout=1800)
+    journal = os.path.join(ctx.work, f"walk-{tag}.journal")
+    cmd += ["--journal", journal]
+    p = sh(cmd, timeout=1800, check=False)
+    if p.returncode in (-6, 134, -11, 139):
+        raise kv_abort_violation(ctx, journal, p.returncode, features)
+    if p.returncode != 0:
+        raise ToolError(f"command failed ({p.returncode}): {cmd}\n{p.stdout[-2000:]}\n{p.stderr[-2000:]}")
     stats = json.loads(p.stdout.strip().splitlines()[-1])
     log(f"kv walk {tag}: {stats['events']} events, {stats['runs']} runs, {stats['panics']} panics, {p.wall:.1f}s")
     ok, info = tlc_trace(ctx, "KvTrace", trace)
@@ -372,6 +378,30 @@ def run_kv_walk(ctx, profile, runs, steps, page_sizes="512", caches="1048576", n
             ctx.notes["event_kinds"][k] = ctx.notes["event_kinds"].get(k, 0) + v
         return stats
     raise kv_violation(ctx, trace, info)
+
+
+def kv_abort_violation(ctx, journal, rc, features=None):
+    """The driver process was killed by an abort / segfault inside the code under test: the journal
+    holds the script up to and including the step that was executing"""
+    cfg, steps = None, []
+    for l in open(journal):
+        j = json.loads(l)
+        if "cfg" in j and "e" not in j:
+            cfg, steps = j["cfg"], []
+        else:
+            steps.append(j)
+    payload = {"property": ctx.prop, "kind": "kv-script", "cfg": cfg, "steps": steps, "expect": "abort"}
+    # confirm: the same script must kill the process again
+    script = os.path.join(ctx.work, "abort-script.json")
+    json.dump({"cfg": cfg, "steps": steps}, open(script, "w"))
+    p = sh([bin_path("kv", features), "--script", script, "--out", os.path.join(ctx.work, "abort.ndjson")], timeout=600, check=False)
+    if p.returncode not in (-6, 134, -11, 139):
+        raise ToolError(f"driver died with status {rc} but the journalled script does not reproduce it (status {p.returncode})")
+    what = (f"the process aborts (status {p.returncode}: a panic while panicking, or a crash) inside redb while executing step "
+            f"{json.dumps(steps[-1])[:200]} of a {len(steps)}-step script")
+    sig = "abort:" + hashlib.sha256(json.dumps([cfg, steps], sort_keys=True).encode()).hexdigest()[:16]
+    payload.update({"what": what, "signature": sig})
+    return Violation(ctx.prop, save_replay(ctx.prop, payload), what, sig)
 
 
 def kv_violation(ctx, trace, info):
@@ -409,7 +439,12 @@ def replay_kv_script(ctx, payload, features=None):
     with open(script, "w") as f:
         json.dump({"cfg": payload["cfg"], "steps": payload["steps"]}, f)
     trace = os.path.join(ctx.work, "replay.ndjson")
-    sh([bin_path("kv", features), "--script", script, "--out", trace], timeout=600)
+    p = sh([bin_path("kv", features), "--script", script, "--out", trace], timeout=600, check=False)
+    if p.returncode in (-6, 134, -11, 139):
+        log("replay still kills the process")
+        return True
+    if p.returncode != 0:
+        raise ToolError(f"replay failed to run: {p.stderr[-1000:]}")
     ok, info = tlc_trace(ctx, "KvTrace", trace)
     if not ok:
         log("replay still rejected:", json.dumps(info["record"])[:400])
